@@ -17,8 +17,8 @@ theorem binaryClique_same (G : SimpleG) (k : Nat) (sb : Bool) (α : Assign) :
 theorem subgraph_same (G H : SimpleG) (ind sb : Bool) (α : Assign) :
     (subgraphFormula G H ind sb).toCNF.holds α = (subgraphFormula G H ind sb).toOPB.holds α :=
   (renderings_agree _ (subgraphFormula_wf G H ind sb)).2 α
-theorem ramseyWitness_same (G : SimpleG) (k : Nat) (sb : Bool) (α : Assign) :
-    (ramseyWitnessCore G k sb).toCNF.holds α = (ramseyWitnessCore G k sb).toOPB.holds α :=
-  (renderings_agree _ (ramseyWitnessCore_wf G k sb)).2 α
+theorem ramseyWitness_same (G : SimpleG) (k s : Nat) (sb : Bool) (α : Assign) :
+    (ramseyWitnessCore G k s sb).toCNF.holds α = (ramseyWitnessCore G k s sb).toOPB.holds α :=
+  (renderings_agree _ (ramseyWitnessCore_wf G k s sb)).2 α
 
 end Cnfgen.C08
